@@ -615,13 +615,31 @@ func runStructOf(c *Ctx) {
 					}
 					seenAp[ap] = true
 					for _, lit := range c.appendedStructFieldLits(ap) {
-						n++
-						key := fmt.Sprintf("%s|field#%d", name, n)
-						nameV := lit.fields["Name"]
-						cls, ok := c.classifyFieldNameIn(lit.fn, li.fn, nameV, ap, lit.env)
-						c.R.Add("STRUCTOF", key+"|"+cls, name, p.InstrPos(ap), ok,
-							"every field name handed to reflect.StructOf is a constant, an index-formatted name with a growing counter, or a projection that is provably unique (duplicate → error)",
-							ternary(ok, cls, "field name "+core.Path(nameV)+": "+cls))
+						// a name chosen per kind before one shared literal (`switch … { case A: name = …; case B: name = … }`):
+						// every alternative is classified
+						names := []ssa.Value{lit.fields["Name"]}
+						if ph, isPhi := lit.fields["Name"].(*ssa.Phi); isPhi {
+							names = nil
+							var flat func(x *ssa.Phi, d int)
+							flat = func(x *ssa.Phi, d int) {
+								for _, e := range x.Edges {
+									if p2, ok := e.(*ssa.Phi); ok && d < 4 {
+										flat(p2, d+1)
+									} else {
+										names = append(names, e)
+									}
+								}
+							}
+							flat(ph, 0)
+						}
+						for _, nameV := range names {
+							n++
+							key := fmt.Sprintf("%s|field#%d", name, n)
+							cls, ok := c.classifyFieldNameIn(lit.fn, li.fn, nameV, ap, lit.env)
+							c.R.Add("STRUCTOF", key+"|"+cls, name, p.InstrPos(ap), ok,
+								"every field name handed to reflect.StructOf is a constant, an index-formatted name with a growing counter, or a projection that is provably unique (duplicate → error)",
+								ternary(ok, cls, "field name "+core.Path(nameV)+": "+cls))
+						}
 					}
 				}
 			}
